@@ -91,6 +91,17 @@ def run(ctx, idx):
     from .C16 import parser_state
 
     parser_state(ctx, idx, "C12.h")
+    ctx.rule("C12.j", "A command name exists for a model exactly when one of the SELECTED libraries defines it: the predicate choosing registry entries for the program's lookup is module equality or a dotted-prefix test (C19.a's reading of Program.__init__) - a bare prefix or pattern test lets a model use a command of a library that merely shares the name's beginning, instead of rejecting it with CommandDoesNotExist.")
+    from .C19 import library_membership
+
+    _init = prog.methods.get("__init__")
+    if _init is None:
+        raise AnalysisError("C12.j: Program.__init__ vanished")
+    library_membership(ctx, idx, "C12.j", _init)
+    ctx.rule("C12.i", "A well-formed model is accepted wherever it is run from: a relative file name is refused only when the program has NO working directory (None); the empty string is the current directory (what the command-line tool passes for a command file given without a directory) - C20.e's reading of PathParameter.clean.")
+    from .C20 import no_working_dir_means_none
+
+    no_working_dir_means_none(ctx, idx, "C12.i", " before anything runs, although every file exists")
     attr = command_table_attr(idx, A)
     # ------------------------------------------------------------------ a: from_source
     fs = prog.methods["from_source"]
